@@ -726,7 +726,7 @@ class SAMIParser(HTMLParser):
         self.last_element = ''
 
     def handle_charref(self, name):
-        if name[0] == 'x':
+        if name[0] in 'xX':
             char = chr(int(name[1:], 16))
         else:
             char = chr(int(name))
